@@ -335,6 +335,14 @@ def specs(tier):
             requirements=[{"task": "t0", "resource": "s0"}, {"task": "t1", "resource": "w0"}],
             constraints=[{"id": "a", "kind": "TaskStartAfter", "task": "t1", "value": 1, "mode": "lax"}],
             objectives=[{"kind": "ResourceCost", "resources": ["w0", "w1"]}])))
+    # a cost over SEVERAL resources with time-dependent costs against a slightly cheaper constant alternative
+    lin = {"kind": "linear", "slope": 1, "intercept": 2}
+    out.append(("ResourceCost.four_linear_vs_constant", fam.base(
+        1, [fam.fx("crew", 1, optional=True), fam.fx("robot", 1, optional=True)],
+        workers=[{"name": f"a{i}", "cost": dict(lin)} for i in range(4)] + [{"name": "r", "cost": {"kind": "const", "value": 9}}],
+        requirements=[{"task": "crew", "resource": f"a{i}"} for i in range(4)] + [{"task": "robot", "resource": "r"}],
+        constraints=[{"id": "f", "kind": "ForceScheduleNOptionalTasks", "tasks": ["crew", "robot"], "n": 1, "mode": "exact"}],
+        objectives=[{"kind": "ResourceCost", "resources": ["a0", "a1", "a2", "a3", "r"]}])))
     for okind in ("MaximizeMaxBufferLevel", "MinimizeMaxBufferLevel"):
         out.append((okind, fam.base(5, [fam.fx("t0", 2), fam.fx("t1", 1), fam.fx("t2", 1)], buffers=[
             {"name": "bf", "initial": 1, "lower": 0}], constraints=[
